@@ -56,6 +56,9 @@ def val(w: World, v):
     """Decode a value: {"p": k} is the Parameter k, anything else is itself."""
     if isinstance(v, dict) and "p" in v:
         return w.get("p", v["p"])
+    if isinstance(v, dict) and "np" in v:
+        # a numpy scalar instead of a Python number (legal everywhere a number is)
+        return getattr(np, v["np"])(v["v"])
     return v
 
 
@@ -69,6 +72,13 @@ def mk_state(w: World, x):
 
 def pids_in(*vals) -> set:
     return {v["p"] for v in vals if isinstance(v, dict) and "p" in v}
+
+
+def plain(v):
+    """The Python number a (possibly numpy-typed) constant stands for."""
+    if isinstance(v, dict) and "np" in v:
+        return v["v"]
+    return v
 
 
 def n_user(c) -> int:
@@ -406,7 +416,7 @@ def _new_param(w, o):
 @op("param_set", tg=_tg_param)
 def _param_set(w, o):
     p = w.get("p", o["p"])
-    w.call(p.set, o["value"])
+    w.call(p.set, val(w, o["value"]))
 
 
 @op("param_min", tg=_tg_param)
